@@ -287,4 +287,69 @@ theorem final_rel (prm : Params K) (ip : Vec K → Vec K → K) (sqrt : K → K)
   · unfold init
     exact ⟨rfl, rfl, rfl, rfl, rfl, rfl, rfl, rfl, rfl, fun h => by simp at h⟩
 
+/-! #### exact preconditioner, right side -/
+
+/-- the state after the first pass when `A·(P v) = v` (right preconditioning): `α = 1`, `s = 0`, exit after the
+half step -/
+theorem exact_first_pass (prm : Params K) (hside : prm.pside = .right) (_hca : prm.checkAfter = false)
+    (ip : Vec K → Vec K → K) (sqrt : K → K) (A : CRS K) (P : Vec K → Vec K)
+    (hAP : ∀ v z, v.size = A.nrows → spmv 1 A (P v) 0 z = v) (ws : Work K) (f x0 : Vec K) (e : K)
+    (hne : ip (residual f A x0) (residual f A x0) ≠ 0)
+    (hz : nrm ip sqrt (vclear A.nrows) = 0) (heps : ¬ e < 0) :
+    ∃ st, body .right ip sqrt A P e (init prm ip sqrt A P ws f x0 e) = .ok st ∧
+      st.iter = 1 ∧ st.res = 0 ∧ st.w.s = vclear A.nrows ∧
+      st.x = axpby 1 (P (residual f A x0)) 1 x0 := by
+  have hr : (init prm ip sqrt A P ws f x0 e).w.r = residual f A x0 := by
+    rw [init_r, hside]; rfl
+  have hrh : (init prm ip sqrt A P ws f x0 e).w.rh = residual f A x0 := by
+    show vcopy _ = _
+    rw [vcopy_eq]; simp only [hside]
+  have hnp : newP (init prm ip sqrt A P ws f x0 e) (ip (residual f A x0) (residual f A x0))
+      = .ok (residual f A x0) := by
+    unfold newP
+    simp only [init, if_true, hside, vcopy_eq]
+  have hx0 : (init prm ip sqrt A P ws f x0 e).x = x0 := rfl
+  have hit0 : (init prm ip sqrt A P ws f x0 e).iter = 0 := rfl
+  have hhalf_s : (half .right ip sqrt A P (init prm ip sqrt A P ws f x0 e) (residual f A x0)).s
+      = vclear A.nrows := by
+    unfold half
+    simp only [pspmv, hr, hrh, hAP _ _ (residual_size' f A x0), div_self hne]
+    rw [axpbypcz_cancel, residual_size']
+  have hhalf_x : (half .right ip sqrt A P (init prm ip sqrt A P ws f x0 e) (residual f A x0)).x
+      = axpby 1 (P (residual f A x0)) 1 x0 := by
+    unfold half
+    simp only [pspmv, hr, hrh, hAP _ _ (residual_size' f A x0), div_self hne, hx0]
+  have hhalf_res : (half .right ip sqrt A P (init prm ip sqrt A P ws f x0 e) (residual f A x0)).res = 0 := by
+    show nrm ip sqrt (half .right ip sqrt A P (init prm ip sqrt A P ws f x0 e) (residual f A x0)).s = 0
+    rw [hhalf_s, hz]
+  unfold body
+  simp only [hr, hrh, hnp, hhalf_res, heps, if_false]
+  exact ⟨_, rfl, by simp only [hit0], rfl, hhalf_s, hhalf_x⟩
+
+theorem exact_final (prm : Params K) (hside : prm.pside = .right) (hca : prm.checkAfter = false)
+    (ip : Vec K → Vec K → K) (sqrt : K → K) (A : CRS K) (P : Vec K → Vec K)
+    (hAP : ∀ v z, v.size = A.nrows → spmv 1 A (P v) 0 z = v) (ws : Work K) (f x0 : Vec K) (nf : K)
+    (hne : ip (residual f A x0) (residual f A x0) ≠ 0) (hmax : 1 ≤ prm.maxiter)
+    (hstart : epsTol prm nf < nrm ip sqrt (residual f A x0))
+    (hz : nrm ip sqrt (vclear A.nrows) = 0) (heps : ¬ epsTol prm nf < 0) :
+    ∃ st, final prm ip sqrt A P ws f x0 nf = (none, st) ∧ st.iter = 1 ∧ st.res = 0 ∧
+      st.x = axpby 1 (P (residual f A x0)) 1 x0 := by
+  obtain ⟨st, hb, h1, h2, _, h4⟩ :=
+    exact_first_pass prm hside hca ip sqrt A P hAP ws f x0 (epsTol prm nf) hne hz heps
+  refine ⟨st, ?_, h1, h2, h4⟩
+  obtain ⟨m, hm⟩ : ∃ m, prm.maxiter = m + 1 := ⟨prm.maxiter - 1, by omega⟩
+  unfold final loop
+  rw [hm, loopE]
+  have hres : (init prm ip sqrt A P ws f x0 (epsTol prm nf)).res = nrm ip sqrt (residual f A x0) := by
+    have := init_r prm ip sqrt A P ws f x0 (epsTol prm nf)
+    rw [hside] at this
+    simp only [init, hca, hside]
+    rfl
+  have hc : cond (epsTol prm nf) (init prm ip sqrt A P ws f x0 (epsTol prm nf)) = true := by
+    simp only [cond, hres]; exact decide_eq_true hstart
+  rw [if_pos hc, hside, hb]
+  apply loopE_of_not_cond
+  simp only [cond, h2]
+  exact decide_eq_false heps
+
 end Amgcl.Solver.BiCGStab
